@@ -199,53 +199,82 @@ def canon_state(machine):
     return core.h64('\n'.join(machine.dump_id() + machine.dump_mem()))
 
 
-def bfs(ctx, part, alpha, depth, seed, s, ns):
-    """level-synchronous BFS; the first level is partitioned over shards, each shard explores its sub-tree"""
+def explore_one(ctx, part, h2, seed):
+    """emulate the history on a fresh machine, check the invariant; returns the canonical state key, or None if the
+    state must not be expanded (emulation raises / invariant fails / reference cannot execute)"""
     ia32, eh = ctx['ia32'], ctx['eh']
     enc = encoded()
+    m = eh.x86_machine()
+    try:
+        with core.watchdog(20):
+            ins = [ia32.x86mnemo.dis(enc[i]) for i in h2]
+            eh.emul_lines(m, ins)
+    except Exception as ex:
+        part.n += 1
+        part.transitions += 1
+        part.violation('seq=[%s] loc=emulation-raises:%s' % (' | '.join(shape(ALPHABET[i]) for i in h2), type(ex).__name__),
+                       'emul_lines(%s) raises %r' % ([ALPHABET[i] for i in h2], ex), {'history': list(h2), 'kind': 'seq'}, size=len(h2))
+        return None
+    part.transitions += 1
+    part.traces += 1
+    key = canon_state(m)
+    r = check_state(ctx, m, h2, seed)
+    part.n += 1
+    if r is None:
+        part.keys.add(core.h64(h2))
+        if len(part.samples) < 2 and len(h2) > 1:
+            part.samples.append({'sequence': [ALPHABET[i] for i in h2], 'state_digest': key})
+    elif r[0] == 'skip':
+        part.skips[r[1][:60]] += 1
+        return None
+    else:
+        if r[0].startswith('read-back'):
+            sig = 'mem %s' % r[0]
+        elif len(h2) > 4:
+            # long histories: named by the set of instruction shapes and the location, not by the exact sequence
+            sig = 'long seq={%s} loc=%s' % (' | '.join(sorted(set(shape(ALPHABET[i]) for i in h2))), r[0])
+        else:
+            sig = 'seq=[%s] loc=%s' % (' | '.join(shape(ALPHABET[i]) for i in h2), r[0])
+        part.violation(sig, 'after %s: %s' % ([ALPHABET[i] for i in h2], r[1]), {'history': list(h2), 'kind': 'seq'}, size=len(h2))
+        return None            # a state in which the invariant fails is not expanded
+    return key
+
+
+def bfs(ctx, part, alpha, depth, seed, s, ns, split=1):
+    """level-synchronous BFS; level `split` is partitioned over the shards (by position), each shard explores its sub-trees.
+    Levels above the split are re-walked by every shard (they must rebuild the frontier) but recorded by shard 0 only."""
     seen = set()
     frontier = [()]
     for d in range(1, depth + 1):
         nxt = []
+        pos = 0
         for h in frontier:
             for a in alpha:
                 h2 = h + (a,)
-                if d == 1 and alpha.index(a) % ns != s:
+                pos += 1
+                if d == split and pos % ns != s:
                     continue
-                m = eh.x86_machine()
-                try:
-                    with core.watchdog(20):
-                        ins = [ia32.x86mnemo.dis(enc[i]) for i in h2]
-                        eh.emul_lines(m, ins)
-                except Exception as ex:
-                    part.n += 1
-                    part.transitions += 1
-                    part.violation('seq=[%s] loc=emulation-raises:%s' % (' | '.join(shape(ALPHABET[i]) for i in h2), type(ex).__name__),
-                                   'emul_lines(%s) raises %r' % ([ALPHABET[i] for i in h2], ex), {'history': list(h2), 'kind': 'seq'}, size=len(h2))
-                    continue
-                part.transitions += 1
-                part.traces += 1
-                key = canon_state(m)
-                r = check_state(ctx, m, h2, seed)
-                part.n += 1
-                if r is None:
-                    part.keys.add(core.h64(h2))
-                    if len(part.samples) < 2 and len(h2) > 1:
-                        part.samples.append({'sequence': [ALPHABET[i] for i in h2], 'state_digest': key})
-                elif r[0] == 'skip':
-                    part.skips[r[1][:60]] += 1
-                    continue
+                if d < split and s != 0:
+                    key = explore_one(ctx, core.Part(), h2, seed)       # rebuild only: nothing recorded
                 else:
-                    sig = ('mem %s' % r[0]) if r[0].startswith('read-back') else 'seq=[%s] loc=%s' % (' | '.join(shape(ALPHABET[i]) for i in h2), r[0])
-                    part.violation(sig,
-                                   'after %s: %s' % ([ALPHABET[i] for i in h2], r[1]), {'history': list(h2), 'kind': 'seq'}, size=len(h2))
-                    continue            # a state in which the invariant fails is not expanded
-                if key in seen:
+                    key = explore_one(ctx, part, h2, seed)
+                if key is None or key in seen:
                     continue
                 seen.add(key)
-                part.states += 1
+                if d >= split or s == 0:
+                    part.states += 1
                 nxt.append(h2)
         frontier = nxt
+
+
+# deep histories over small interacting alphabets (indices into ALPHABET): (alphabet, quick depth, thorough depth)
+LONG_JOBS = [
+    ([4, 9], 10, 12),              # add eax, ebx | xchg eax, ecx
+    ([11, 12, 9], 6, 8),           # push eax | pop ebx | xchg eax, ecx
+    ([3, 4, 8, 9], 5, 6),          # mov ah, bl | add eax, ebx | shl eax, 4 | xchg eax, ecx
+    ([15, 18, 4, 9], 5, 6),        # mov [esi], eax | mov eax, [esi] | add eax, ebx | xchg eax, ecx
+    ([5, 7, 37, 36, 0], 4, 6),     # sub ebx, 1 | inc ecx | mov al, bl | mov ah, 0x55 | mov eax, ebx
+]
 
 
 # ---------------------------------------------------------------------------
@@ -414,9 +443,13 @@ def shard(s, ns, tier, seed):
     with core.quiet_stdout():
         if tier == 'quick':
             bfs(ctx, part, QUICK_ALPHABET, 3, seed, s, ns)
+            for al, dq, dt in LONG_JOBS:
+                bfs(ctx, part, al, dq, seed, s, ns, split=3)
         else:
             bfs(ctx, part, list(range(len(ALPHABET))), 3, seed, s, ns)
             bfs(ctx, part, QUICK_ALPHABET, 4, seed, s, ns)
+            for al, dq, dt in LONG_JOBS:
+                bfs(ctx, part, al, dt, seed, s, ns, split=3)
         for i, (base, stores, load) in enumerate(storeload_space(tier)):
             if (i // 64) % ns != s:
                 continue
